@@ -122,20 +122,24 @@ def sites(case, st, d):
     yields dict(kind, expect='refuse'|'accept', apply=fn(tree) mutating a deep copy, vmut=fn(value copy) for accepted ones)"""
     src = case.src
     out = []
+    typemap = {}          # path of every structure dict -> its type name (for the value-object spelling)
 
-    def add(kind, expect, apply, vmut=None, where=""):
-        out.append(dict(kind=kind, expect=expect, apply=apply, vmut=vmut, where=where))
+    def add(kind, expect, apply, vmut=None, where="", path=()):
+        out.append(dict(kind=kind, expect=expect, apply=apply, vmut=vmut, where=where, path=tuple(path)))
 
     def dict_sites(path, keys, label):
-        add("extra-key", "refuse", lambda t, path=path: get_at(t, path).__setitem__(UNKNOWN, 1), where=label)
+        add("extra-key", "refuse", lambda t, path=path: get_at(t, path).__setitem__(UNKNOWN, 1), where=label, path=path)
+        add("extra-key-none", "refuse", lambda t, path=path: get_at(t, path).__setitem__(UNKNOWN, None), where=label, path=path)
         for k in keys:
             def rename(t, path=path, k=k):
                 dd = get_at(t, path)
                 dd[k + "x"] = dd.pop(k)
-            add("misspelt-key", "refuse", rename, where=label + "." + k)
+            add("misspelt-key", "refuse", rename, where=label + "." + k, path=path)
 
     def walk_struct(s, path, vpath, label):
         dd = get_at(d, path)
+        if path:
+            typemap[tuple(path)] = s["type"]
         dict_sites(path, list(dd.keys()), label)
         for i, (a, v) in enumerate(s["attrs"]):
             if a["required"]:
@@ -227,7 +231,24 @@ def sites(case, st, d):
                     add("other-choice-branch", "refuse", lambda t, path=path, on=other["zn"], val=val: get_at(t, path).__setitem__(on, val), where=label)
 
     walk_struct(st, [], [], "root")
-    return out
+    return out, typemap
+
+
+def objectify(case, tree, typemap, keep, rng):
+    """spell some of the structure dicts as value objects (deepest first); never one on or below the path `keep`"""
+    zs = case.schemas[True][0]
+    for path in sorted(typemap, key=len, reverse=True):
+        if path[:len(keep)] == tuple(keep) or tuple(keep)[:len(path)] == path:
+            continue
+        if rng.random() < 0.6:
+            parent = get_at(tree, path[:-1])
+            node = parent[path[-1]]
+            if isinstance(node, dict):
+                try:
+                    parent[path[-1]] = zs.get_type("{%s}%s" % (xsdgen.TNS, typemap[path]))(**materialise(node))
+                except Exception:  # noqa  (a corruption elsewhere in this dict: leave it a dict)
+                    pass
+    return tree
 
 
 def materialise(tree):
@@ -362,7 +383,7 @@ def one_schema(ctx, res, case, pending, per):
         if feat & {"nil"}:
             continue          # corruption sites below are computed on plain-dict calls without markers
         # (b) single-point corruptions
-        all_sites = sites(case, st, base)
+        all_sites, typemap = sites(case, st, base)
         rng.shuffle(all_sites)
         chosen = []
         seen = set()
@@ -384,7 +405,18 @@ def one_schema(ctx, res, case, pending, per):
             else:
                 kw = copy.deepcopy(base)
                 s["apply"](kw)
-            kind, out = impl_call(case, args, kw)
+            kw_plain = copy.deepcopy(kw)
+            kw_impl = kw
+            if s["kind"] not in ("extra-positional", "duplicate-positional-keyword") and s["expect"] == "refuse" and rng.random() < 0.5:
+                kw_impl = objectify(case, copy.deepcopy(kw), typemap, s["path"], rng)
+                res.count("corruption-with-value-objects")
+            if (s["kind"] not in ("extra-positional", "duplicate-positional-keyword") and not has_choice and s.get("path")
+                    and all(n in kw_impl for n in names) and rng.random() < 0.4):
+                # the corrupted (nested) data passed positionally
+                args, kw_impl = tuple(kw_impl[n] for n in names), {}
+                kw = {}
+                res.count("corruption-passed-positionally")
+            kind, out = impl_call(case, args, kw_impl)
             c = dict(c0, call=dict(corruption=s["kind"], where=s["where"], args=valgen.canon(list(args)), kwargs=valgen.canon(kw)))
             if s["expect"] == "refuse":
                 if kind == "ok":
@@ -400,7 +432,10 @@ def one_schema(ctx, res, case, pending, per):
                     if d:
                         res.failures.append(dict(what="explicit marker (%s at %s) does not produce the expected XML: %s" % (s["kind"], s["where"], d), case=c))
             if in_model:
-                op = dict(op="bind.call", tag="root", pos=[to_arg(a) for a in args], kw=[[k, to_arg(v)] for k, v in kw.items()], **bf)
+                if args and not kw and s["kind"] not in ("extra-positional", "duplicate-positional-keyword"):
+                    op = dict(op="bind.call", tag="root", pos=[to_arg(kw_plain[n]) for n in names], kw=[], **bf)
+                else:
+                    op = dict(op="bind.call", tag="root", pos=[to_arg(a) for a in args], kw=[[k, to_arg(v)] for k, v in kw.items()], **bf)
                 pending.append((op, kind, out, c))
 
 
